@@ -28,6 +28,8 @@ type Event struct {
 	Stat bool   `json:"stat,omitempty"`
 	Len  int    `json:"len,omitempty"`
 	Err  string `json:"err,omitempty"`
+	// St is a copy of the stat of a STAT packet (only with Config.KeepStats).
+	St *types.Stat `json:"-"`
 }
 
 func (e Event) String() string {
@@ -63,6 +65,8 @@ type Config struct {
 	// Generic selects the generic protobuf runtime for (un)marshalling on the
 	// wire for a packet; nil = always fsutil's own codec.
 	Generic func() bool
+	// KeepStats stores a copy of every STAT's stat in the event log.
+	KeepStats bool
 	// OnEvent is called for every logged event (under the log lock).
 	OnEvent func(Event)
 }
@@ -206,6 +210,9 @@ func (e *End) SendMsg(m interface{}) error {
 	}
 	ev := Event{End: e.Name, Op: "send"}
 	summarize(pk, &ev)
+	if cfg.KeepStats && pk.Stat != nil {
+		ev.St = pk.Stat.CloneVT()
+	}
 	if cfg.Hook != nil {
 		cfg.Hook(e.Name, "send", idx, 0)
 	}
